@@ -242,6 +242,35 @@ theorem code_recover_commits_only :
     (∀ s, (codeRCfg s).createsEmptyManifestFirst = false) ∧ Gen.recoverTableCommitsOnly = true ∧
     Gen.newManifestWriteSyncSetMeta = true := by decide
 
+/-- the number of the manifest `Recover` writes (`manifestNum`) lies above EVERY file number in the storage, as the
+    code makes it since the repair of D47 (`tools/extract`: `recoverTable` marks every number
+    `s.stor.List(storage.TypeAll)` returns before its commit).  Before the repair only the last table's number was
+    marked: a manifest still on disk with a larger number — e.g. the target of a pending `CURRENT.<n>` left behind by
+    an interrupted `SetMeta` — outranked the recovered one at the next `GetMeta` (`C04FS.stale_pending_wins` is the
+    storage-level trace; exhibited on the real file storage by the check's `recover:file-storage:reopen-failed`). -/
+theorem code_recover_outranks_all_files :
+    Gen.recoverMarksAllFileNums = true ∧
+    ∀ (r : RDisk) (n : Nat),
+      (n ∈ r.disk.tables.nums ∨ n ∈ r.disk.journals.nums ∨ n ∈ r.disk.manifests.nums ∨ n ∈ r.temps.nums) →
+      n < manifestNum r := by
+  refine ⟨by decide, fun r n h => ?_⟩
+  have hmem : n ∈ allNums r := by
+    unfold allNums
+    rcases h with h | h | h | h
+    · exact List.mem_append_left _ (List.mem_append_left _ (List.mem_append_left _ h))
+    · exact List.mem_append_left _ (List.mem_append_left _ (List.mem_append_right _ h))
+    · exact List.mem_append_left _ (List.mem_append_right _ h)
+    · exact List.mem_append_right _ h
+  unfold manifestNum
+  have hne : (allNums r).isEmpty = false := by
+    cases ha : allNums r with
+    | nil => rw [ha] at hmem; simp at hmem
+    | cons p ps => rfl
+  rw [hne]
+  have := le_maxNum hmem
+  simp only [Bool.false_eq_true, if_false]
+  omega
+
 /-- **the operations compute the abstract rebuild**: when `recoverTable` has made all its operations, `openDB`'s
     `session.recover` + journal replay (`Dur.recoverR`) succeeds on the storage, runs on the recorded tables, and
     delivers exactly the entries, the sequence number and hence every read of `Dur.rebuild` applied to what the scan
@@ -379,6 +408,8 @@ def exOrig : RebuildIn :=
   { tables := [(4, g1.ents), (6, g2.ents)], journals := [(8, [g4, g5])] }
 
 theorem exR_durable : exR.durable := by decide
+/-- `code_recover_outranks_all_files` on the example: the unreadable manifest 9 is outranked -/
+example : manifestNum exR = 10 := by decide
 theorem exR_old_unreadable : OldUnreadable {} exR := by
   intro c mf h1 h2
   have hc : c = 9 := by cases h1; rfl
@@ -394,17 +425,18 @@ theorem exOrig_settled : Settled exOrig :=
   ⟨by unfold Uniq; decide, by decide, by unfold Grp.wf; decide⟩
 theorem exR_damaged : Damaged exOrig (scanIn {} exR) := ⟨by decide, by decide⟩
 
-/-- the operations of `Recover` on the example: table 6 is rebuilt through temp file 0, manifest 7 is written and
-    made current, journal 8 is flushed to table 9, journal 10 is created, the edit is committed, journal 8 removed
-    (manifest 9 is not older than 7: `checkAndCleanFiles` keeps it) -/
+/-- the operations of `Recover` on the example: table 6 is rebuilt through temp file 0; every file number in the
+    storage is in use (the repair of D47), so the manifest gets number 10 — above the unreadable manifest 9 —, is
+    written and made current; journal 8 is flushed to table 11, journal 12 is created, the edit is committed, journal 8
+    removed, and `checkAndCleanFiles` removes manifest 9, which is older than the current one -/
 example : recoverOps {} exR =
     [.createTemp 0, .writeTemp 0 [g2r], .syncTemp 0, .renameTemp 0 6,
-     .base (.create .manifest 7),
-     .base (.writeM 7 { snapshot := true, jn := some 0, sq := some 3, nf := 8, added := [4, 6] }),
-     .base (.sync .manifest 7), .base (.setMeta 7),
-     .base (.create .table 9), .base (.writeT 9 [g4, g5]), .base (.sync .table 9),
-     .base (.create .journal 10), .base (.writeM 7 { jn := some 10, sq := some 6, nf := 11, added := [9] }),
-     .base (.sync .manifest 7), .base (.remove .journal 8)] := by decide
+     .base (.create .manifest 10),
+     .base (.writeM 10 { snapshot := true, jn := some 0, sq := some 3, nf := 11, added := [4, 6] }),
+     .base (.sync .manifest 10), .base (.setMeta 10),
+     .base (.create .table 11), .base (.writeT 11 [g4, g5]), .base (.sync .table 11),
+     .base (.create .journal 12), .base (.writeM 10 { jn := some 12, sq := some 6, nf := 13, added := [11] }),
+     .base (.sync .manifest 10), .base (.remove .journal 8), .base (.remove .manifest 9)] := by decide
 
 /-- `recover_ops_equals_rebuild` on the example: `m` is deleted, `k` has its newer value, `l` sat in the corrupted
     block -/
@@ -471,20 +503,20 @@ theorem open_complete_on_example :
 def preRepair : RCfg := { createsEmptyManifestFirst := true }
 
 /-- **D33.**  The operations of the old `recoverTable` on the example: after the 8th, `SetMeta` of the *empty*
-    manifest 7, the machine dies.  `Open` succeeds on the image — on a version without tables; `k` is read from the
+    manifest 10, the machine dies.  `Open` succeeds on the image — on a version without tables; `k` is read from the
     journal, `m`'s and the older data of the tables are gone; and `Open`'s janitor (`Dur.step`: `recOpen`, the journal
     loop, the final commit, `checkAndCleanFiles`) removes tables 4 and 6.  With the repaired code the same crash
     point has `CURRENT` on the complete manifest. -/
 theorem pre_repair_empty_manifest_loses_tables :
     (recoverTableOps preRepair exR).take 8 =
-      [.createTemp 0, .writeTemp 0 [g2r], .syncTemp 0, .renameTemp 0 6, .base (.create .manifest 7),
-       .base (.writeM 7 { snapshot := true, jn := some 0, sq := some 0, nf := 8 }), .base (.sync .manifest 7),
-       .base (.setMeta 7)] ∧
+      [.createTemp 0, .writeTemp 0 [g2r], .syncTemp 0, .renameTemp 0 6, .base (.create .manifest 10),
+       .base (.writeM 10 { snapshot := true, jn := some 0, sq := some 0, nf := 11 }), .base (.sync .manifest 10),
+       .base (.setMeta 10)] ∧
     (recoverR {} (crashAt preRepair exR 8 {}).disk).toOption.map (fun rs => (rs.mv.live, rs.tableGrps)) =
       some ([], []) ∧
     (run {} ({}, (crashAt preRepair exR 8 {}).disk)
         ([.recOpen, .recStep, .recStep] ++ List.replicate 19 (.job false .ok))).map
-      (fun sd => (sd.1.phase, sd.2.tables.nums)) = some (.running, [9]) ∧
+      (fun sd => (sd.1.phase, sd.2.tables.nums)) = some (.running, [11]) ∧
     (recoverR {} (crashAt {} exR 8 {}).disk).toOption.map (·.mv.live) = some [4, 6] := by
   decide
 
@@ -509,7 +541,8 @@ theorem pre_repair_open_incomplete :
 def theorems : List String :=
   ["GoLevel.C19.recover_rebuilds", "GoLevel.C19.recover_rebuilds_damaged",
    "GoLevel.C19.rebuilt_lookup_refines_view",
-   "GoLevel.C19.code_recover_commits_only", "GoLevel.C19.recover_ops_equals_rebuild",
+   "GoLevel.C19.code_recover_commits_only", "GoLevel.C19.code_recover_outranks_all_files",
+   "GoLevel.C19.recover_ops_equals_rebuild",
    "GoLevel.C19.recover_crash_atomic", "GoLevel.C19.recover_crash_atomic_settled",
    "GoLevel.C19.recover_crash_atomic_damaged", "GoLevel.C19.recover_crash_open_partial",
    "GoLevel.C19.open_complete_on_example", "GoLevel.C19.pre_repair_empty_manifest_loses_tables",
